@@ -19,7 +19,8 @@ RULE = ('bounded-exhaustive: every nesting context = word of length 0..3 over {I
         'plugin call count, verdict, contract call count, reached call depth) must equal the documented meaning of the '
         'configuration and the top-level observation; the top tape\'s flags after the run must equal the configuration; '
         'SET_FLAG / UNSET_FLAG k must change exactly integer flag k. non-trivial = depth >= 1 and a non-default '
-        'configuration; all cases distinct by construction (context word, probe, configuration).')
+        'configuration; all cases distinct by construction (context word, probe, configuration).'
+        ' Flag instructions for flags 0-10 under 39 placements relative to the probe: direct, persist (idle LOOP / CALL / IF / TRY / EVAL in between), inherit (probe inside each of 11 constructs entered afterwards), viafn (the instruction in a function called inside the construct), noopcall (metamorphic: an idle CALL next to the instruction changes nothing observed after the construct).')
 ASSUMPTIONS = ['the configuration is handed to run_tape exactly as run_script does (tape.contracts, tape.plugins, '
                'additional_flags) so that the cache can be inspected after failed runs as well',
                'clock pinned']
